@@ -40,6 +40,25 @@ def run(ctx):
 
 
 # ------------------------------------------------------------------------------------------------ LOCK
+    # ---------------------------------------------------------------- FAILCLOSE
+    # a failed commit / flush ends the session whatever state the failure left behind: in the handlers of SessionCache.commit and
+    # flush_and_commit every path from the handler to its exit passes rollback() (-> close(): connection rolled back and returned, cache removed
+    # from the thread's table).  A guard such as `if cache.in_transaction:` skips it exactly when the provider's commit() already reset the flag
+    # in its `finally` -- the connection and its open transaction are orphaned.
+    nfc = 0
+    for qual in ('SessionCache.commit', 'SessionCache.flush_and_commit'):
+        f = repo.fn(CORE, qual); g = cg.cfg(f)
+        for h in [x for x in g.nodes if x.kind == 'handler']:
+            rb = [x for x in g.nodes if x.kind == 'stmt' and x.ast is not None and x.id in g.reach([h]) and any(isinstance(c.func, ast.Attribute) and c.func.attr in ('rollback', 'close') and dotted(c.func.value) == f.recv for c in x.calls())]
+            if not rb: continue
+            nfc += 1
+            ok = g.must_pass_after(h, rb, exits=[g.exit, g.raise_])
+            ctx.ob('C19-FAILCLOSE.failed-commit-always-closes-the-session', f, rb[0].ast, ok,
+                   '' if ok else 'the handler of %s can leave without rollback(): after a failed commit the cache stays registered with its connection and open transaction' % qual,
+                   node=rb[0].ast, expected='unconditional cache.rollback() in the handler')
+    ctx.floor('C19-FAILCLOSE', nfc, 2, 'commit/flush handlers that close the session')
+
+
 def base_summary(ctx, name):
     """exit states of DBAPIProvider.<name>: -> (normal: set of intx values given (cn,intx) entry, exc: ...)"""
     repo, cg = ctx.repo, ctx.cg
@@ -317,6 +336,7 @@ def call_rules(ctx):
 
 
 MUTANTS = [
+    dict(id='C19-fc1', file='pony/orm/core.py', fn='SessionCache.flush_and_commit', old="        try: cache.flush()\n        except:\n            cache.rollback()\n            raise", new="        try: cache.flush()\n        except:\n            if cache.modified: cache.rollback()\n            raise", expect='C19-FAILCLOSE'),
     dict(id='C19-m1', file='pony/orm/dbproviders/sqlite.py', fn='SQLiteProvider.commit',
          old='                cache.in_transaction = False\n', new='', expect='C19-LOCK.commit-releases'),
     dict(id='C19-m2', file='pony/orm/dbproviders/sqlite.py', fn='SQLiteProvider.rollback',
